@@ -48,6 +48,12 @@ def cjoin(kind: str, kids: Any) -> Fact:
             flat |= set(k[1])
         else:
             flat.add(k)
+    absorbing = ("const", kind == "or")  # True absorbs an `or`, False an `and`
+    if absorbing in flat:
+        return absorbing
+    flat.discard(("const", kind == "and"))  # the neutral element
+    if not flat:
+        return ("const", kind == "and")
     if len(flat) == 1:
         return next(iter(flat))
     return (kind, frozenset(flat))
@@ -191,7 +197,9 @@ class SymExec:
             out = []
             left = e.left
             for op, right in zip(e.ops, e.comparators):
-                out.append(self._cmp(repr(self.ev(left, env)), op, repr(self.ev(right, env))))
+                lp, rp = self.ev(left, env), self.ev(right, env)
+                folded = self._fold(lp, op, rp)
+                out.append(folded if folded is not None else self._cmp(repr(lp), op, repr(rp)))
                 left = right
             return cjoin("and", out)
         if isinstance(e, ast.Constant) and isinstance(e.value, bool):
@@ -204,6 +212,22 @@ class SymExec:
         if cv is not None:
             return ("const", cv != 0)
         return ("truthy", repr(p))
+
+    def _fold(self, a: Poly, op: ast.cmpop, b: Poly) -> Fact | None:
+        """Identity / equality tests decided by the values themselves (x is x; a tuple is not None)."""
+        if not isinstance(op, (ast.Is, ast.IsNot, ast.Eq, ast.NotEq)):
+            return None
+        positive = isinstance(op, (ast.Is, ast.Eq))
+
+        def not_none(p: Poly) -> bool:
+            st = self.parts(p)
+            return p.const_value() is not None or (st is not None and st[0] in ("tuple", "Sample", "wrap", "cond"))
+
+        if a == b and (a == NONE or isinstance(op, (ast.Is, ast.IsNot))):
+            return ("const", positive)
+        if (a == NONE and not_none(b)) or (b == NONE and not_none(a)):
+            return ("const", not positive)
+        return None
 
     @staticmethod
     def _cmp(a: str, op: ast.cmpop, b: str) -> Fact:
@@ -251,6 +275,14 @@ class SymExec:
             and self._bind(h, n, {}) is not None
 
     def _bind(self, h: FuncInfo, call: ast.Call, env: Env) -> Env | None:
+        got = self.bind_ast(h, call)
+        if got is None:
+            return None
+        return {n: self.ev(v, env if from_call else {}) for n, (v, from_call) in got.items()}
+
+    @staticmethod
+    def bind_ast(h: FuncInfo, call: ast.Call) -> dict[str, tuple[ast.AST, bool]] | None:
+        """parameter -> (argument expression, written at the call site? (else: the default))."""
         a = h.node.args
         names = [x.arg for x in a.posonlyargs + a.args]
         static = any(isinstance(d, ast.Name) and d.id == "staticmethod" for d in h.node.decorator_list)
@@ -262,11 +294,13 @@ class SymExec:
         if a.vararg or a.kwarg or any(isinstance(x, ast.Starred) for x in call.args) \
                 or any(k.arg is None for k in call.keywords) or len(call.args) > len(names):
             return None
-        out: Env = {}
+        out: dict[str, tuple[ast.AST, bool]] = {}
         for n, v in zip(names, call.args):
-            out[n] = self.ev(v, env)
+            out[n] = (v, True)
         for k in call.keywords:
-            out[k.arg] = self.ev(k.value, env)  # type: ignore[index]
+            if k.arg not in names + [x.arg for x in a.kwonlyargs]:
+                return None
+            out[k.arg] = (k.value, True)  # type: ignore[index]
         defaults: dict[str, ast.AST] = dict(zip(names[len(names) - len(a.defaults):], a.defaults))
         for x, d in zip(a.kwonlyargs, a.kw_defaults):
             if d is not None:
@@ -275,7 +309,7 @@ class SymExec:
             if n not in out:
                 if n not in defaults:
                     return None
-                out[n] = self.ev(defaults[n], {})
+                out[n] = (defaults[n], False)
         return out
 
     # ------------------------------------------------------------------ preprocessing
@@ -546,3 +580,64 @@ def div_linear(p: Poly, x: str, r: Poly) -> Poly | None:
         q = q + carry * (Poly({((x, k - 1),): 1}) if k > 1 else Poly.const(1))  # type: ignore[dict-item]
     rem = coeffs.get(0, Poly()) + r * carry
     return q if rem.is_zero() else None
+
+
+class _SubstNames(ast.NodeTransformer):
+    def __init__(self, mapping: dict[str, ast.AST], rename: dict[str, str]) -> None:
+        self.mapping, self.rename = mapping, rename
+
+    def visit_Name(self, node: ast.Name) -> ast.AST:  # noqa: N802
+        if node.id in self.mapping and isinstance(node.ctx, ast.Load):
+            return ast.copy_location(copy.deepcopy(self.mapping[node.id]), node)
+        if node.id in self.rename:
+            node.id = self.rename[node.id]
+        return node
+
+
+def fuse_generator_loop(sym: SymExec, loop: ast.For) -> ast.For:
+    """`for T in _gen(args): BODY` where the private helper `_gen` is a generator whose body is one
+    loop with every `yield E` in tail position of an iteration  ->  the generator's loop with
+    `T = E; BODY` in place of each `yield E` (what the two coroutines do together, turn by turn; a
+    `continue` of BODY resumes the generator after the yield, i.e. at the end of its iteration).
+    Any other generator shape raises AnalysisError; a loop over anything else is returned as is."""
+    call = loop.iter
+    if not isinstance(call, ast.Call):
+        return loop
+    h = sym._helper(call)
+    if h is None or not any(isinstance(n, (ast.Yield, ast.YieldFrom)) for s in h.node.body for n in ast.walk(s)):
+        return loop
+    body = [s for s in h.node.body if not (isinstance(s, ast.Expr) and isinstance(s.value, ast.Constant))]
+    binds = sym.bind_ast(h, call)
+    if len(body) != 1 or not isinstance(body[0], ast.For) or body[0].orelse or binds is None or h.is_async:
+        raise AnalysisError(f"{h.qual}: unsupported generator shape")
+    g: ast.For = copy.deepcopy(body[0])
+    stored = {n.id for n in ast.walk(g) if isinstance(n, ast.Name) and isinstance(n.ctx, (ast.Store, ast.Del))}
+    if stored & set(binds):
+        raise AnalysisError(f"{h.qual}: a parameter is rebound in the generator")
+    tag = h.name.strip("_")
+    g = _SubstNames({k: v for k, (v, _c) in binds.items()}, {n: f"{n}__{tag}" for n in stored}).visit(g)
+
+    def weave(suite: list[ast.stmt], tail: bool) -> list[ast.stmt]:
+        out: list[ast.stmt] = []
+        for i, s in enumerate(suite):
+            last = tail and i == len(suite) - 1
+            if isinstance(s, ast.Expr) and isinstance(s.value, ast.Yield):
+                if not last or s.value.value is None:
+                    raise AnalysisError(f"{h.qual}: `yield` is not the last action of an iteration")
+                out.append(ast.copy_location(ast.Assign(targets=[copy.deepcopy(loop.target)], value=s.value.value), s))
+                out.extend(copy.deepcopy(loop.body))
+            elif isinstance(s, ast.If) and not any(isinstance(n, (ast.Yield, ast.YieldFrom)) for n in ast.walk(s.test)):
+                s.body = weave(s.body, last)
+                s.orelse = weave(s.orelse, last) if s.orelse else []
+                out.append(s)
+            elif any(isinstance(n, (ast.Yield, ast.YieldFrom)) for n in ast.walk(s)) or (
+                    isinstance(s, (ast.Return, ast.Break)) and not last):
+                raise AnalysisError(f"{h.qual}: unsupported generator shape (`{u(s)[:50]}`)")
+            else:
+                out.append(s)
+        return out
+
+    g.body = weave(g.body, True)
+    ast.copy_location(g, loop)
+    ast.fix_missing_locations(g)
+    return g
